@@ -639,6 +639,24 @@ class Interp:
         self.ctx.oblige("%s.assert" % self.short(), self.truth_term(c),
                         detail="assert at %s:%d" % (self.short(), s.lineno))
 
+    def s_Try(self, s):
+        if s.finalbody or s.orelse:
+            raise Unsupported("try with else / finally at line %d" % s.lineno)
+        try:
+            self.block(s.body)
+        except PyRaise as r:
+            for h in s.handlers:
+                names = []
+                if h.type is not None:
+                    for t in (h.type.elts if isinstance(h.type, ast.Tuple) else [h.type]):
+                        names.append(t.id if isinstance(t, ast.Name) else getattr(t, "attr", "?"))
+                if h.type is None or r.exc_type in names or "Exception" in names or "BaseException" in names:
+                    if h.name:
+                        self.env[h.name] = GObj("exception:%s" % r.exc_type)
+                    self.block(h.body)
+                    return
+            raise
+
     def s_Raise(self, s):
         name = "Exception"
         if s.exc is not None:
@@ -748,6 +766,9 @@ class Interp:
             if name in ("has_field", "HasField", "CopyFrom", "which_type", "which_expression"):
                 return _BoundRec(obj, name)
             raise Unsupported("read of undeclared field %s.%s at %s:%d" % (obj.typename, name, self.info.qualname, node.lineno))
+        if isinstance(obj, (PStr, SNumStr)) and name in ("split", "strip"):
+            ps = obj if isinstance(obj, PStr) else PStr([obj])
+            return _BoundGhost(ps, name, (lambda interp, o, sep=None: o.split(interp, sep)) if name == "split" else (lambda interp, o: o.strip(interp)))
         if isinstance(obj, GStr):
             if name in obj.ops:
                 return _BoundGhost(obj, name, obj.ops[name])
@@ -777,6 +798,15 @@ class Interp:
 
     def e_Subscript(self, e):
         obj = self.eval(e.value)
+        if isinstance(obj, (PStr, SNumStr)):
+            ps = obj if isinstance(obj, PStr) else PStr([obj])
+            if isinstance(e.slice, ast.Slice):
+                if e.slice.lower is None and e.slice.step is None and e.slice.upper is not None and self.eval(e.slice.upper) == -1:
+                    return ps.drop_last(self)
+                raise Unsupported("slice of a formatted string other than s[:-1] at line %d" % e.lineno)
+            if self.eval(e.slice) == -1:
+                return ps.last_char(self)
+            raise Unsupported("index of a formatted string other than s[-1] at line %d" % e.lineno)
         if isinstance(e.slice, ast.Slice) and isinstance(obj, GStr) and "slice" in obj.ops and e.slice.step is None:
             return obj.ops["slice"](self, obj, self.eval(e.slice.lower) if e.slice.lower is not None else None,
                                     self.eval(e.slice.upper) if e.slice.upper is not None else None)
@@ -1041,6 +1071,11 @@ class Interp:
 
     def equal(self, a, b):
         """Python == on the value model."""
+        if a is DIGIT or b is DIGIT:
+            o = b if a is DIGIT else a
+            if isinstance(o, str) and len(o) == 1 and not o.isdigit():
+                return False
+            raise Unsupported("comparison of a digit of a formatted integer with %r" % (o,))
         if isinstance(a, GStr) or isinstance(b, GStr):
             if a is b:
                 return True
@@ -1153,7 +1188,33 @@ class Interp:
         return self._comp(e, lambda: self.eval(e.elt))
 
     def e_JoinedStr(self, e):
-        raise Unsupported("f-string at line %d" % e.lineno)
+        pieces = []
+        for v in e.values:
+            if isinstance(v, ast.Constant):
+                pieces.append(str(v.value))
+                continue
+            if not isinstance(v, ast.FormattedValue) or v.format_spec is not None or v.conversion not in (-1, 115):
+                raise Unsupported("f-string with a conversion or format spec at line %d" % e.lineno)
+            x = self.eval(v.value)
+            pieces.append(self.to_str(x, e))
+        return PStr.make(pieces)
+
+    def to_str(self, x, node):
+        """str(x) on the value model."""
+        if isinstance(x, (str, SNumStr, PStr)):
+            return x
+        if isinstance(x, SInt):
+            return SNumStr(x.t)
+        if isinstance(x, bool) or x is None:
+            return str(x)
+        if isinstance(x, int):
+            return str(x)
+        if isinstance(x, GObj) and "__str__" in x.methods:
+            return x.methods["__str__"](self, x)
+        hooks = getattr(self.ctx.engine, "str_of", {})
+        if isinstance(x, SRec) and x.typename in hooks:
+            return hooks[x.typename](self, x)
+        raise Unsupported("str() of %r at line %d" % (x, getattr(node, "lineno", 0)))
 
     def e_Lambda(self, e):
         return _Closure(self, e)
@@ -1378,6 +1439,10 @@ def _b_int(interp, node, v=0, *rest):
         raise Unsupported("int() with base")
     if isinstance(v, SNumStr):
         return mk_int(v.t)
+    if isinstance(v, PStr):
+        if any(isinstance(q, str) and any(not (ch.isdigit() or ch.isspace() or ch in "+-_") for ch in q) for q in v.pieces):
+            interp.raise_py("ValueError", node, "int(%r)" % (v,))
+        raise Unsupported("int() of a formatted string that is not a single integer: %r" % (v,))
     if isinstance(v, (SInt, SBool)):
         return mk_int(zint(v))
     if isinstance(v, str):
@@ -1538,6 +1603,95 @@ class GDict:
     def __init__(self, present, entries, truthy=True, label="dict", attrs=None):
         self.present, self.entries, self.truthy, self.label = dict(present), dict(entries), truthy, label
         self.attrs = dict(attrs or {})       # attributes of a dict subclass instance (e.g. symbol_resolver._Scope)
+
+
+class _DigitChar:
+    """One character of the decimal rendering of a non-negative integer: equal to no non-digit character."""
+
+    def __repr__(self):
+        return "<digit>"
+
+
+DIGIT = _DigitChar()
+
+
+class PStr:
+    """A piecewise string: concrete str pieces and SNumStr pieces (the decimal rendering of an integer term), as built by an
+    f-string.  Operations that rely on an SNumStr piece consisting of digits only (indexing, split, strip) generate the
+    obligation that its integer is non-negative (a sign would be a '-' character)."""
+
+    def __init__(self, pieces):
+        out = []
+        for p in pieces:
+            if isinstance(p, PStr):
+                ps = p.pieces
+            else:
+                ps = [p]
+            for q in ps:
+                if isinstance(q, str):
+                    if not q:
+                        continue
+                    if out and isinstance(out[-1], str):
+                        out[-1] += q
+                        continue
+                elif not isinstance(q, SNumStr):
+                    raise Unsupported("piece %r in a formatted string" % (q,))
+                out.append(q)
+        self.pieces = out
+
+    def __repr__(self):
+        return "PStr(%r)" % (self.pieces,)
+
+    @staticmethod
+    def make(pieces):
+        p = PStr(pieces)
+        if not p.pieces:
+            return ""
+        if len(p.pieces) == 1:
+            return p.pieces[0]
+        return p
+
+    def _digits(self, interp, piece):
+        interp.ctx.oblige("%s.formatted-integer-is-non-negative" % interp.short(), piece.t >= 0, detail="an integer rendered into a string that is later split / indexed must not carry a sign")
+
+    def last_char(self, interp):
+        q = self.pieces[-1]
+        if isinstance(q, str):
+            return q[-1]
+        self._digits(interp, q)
+        return DIGIT
+
+    def drop_last(self, interp):
+        q = self.pieces[-1]
+        if not isinstance(q, str):
+            raise Unsupported("s[:-1] where the last character belongs to a formatted integer")
+        return PStr.make(self.pieces[:-1] + [q[:-1]])
+
+    def split(self, interp, sep):
+        if not isinstance(sep, str) or len(sep) != 1 or sep.isdigit():
+            raise Unsupported("split of a formatted string on %r" % (sep,))
+        parts, cur = [], []
+        for q in self.pieces:
+            if isinstance(q, str):
+                bits = q.split(sep)
+                cur.append(bits[0])
+                for b in bits[1:]:
+                    parts.append(PStr.make(cur))
+                    cur = [b]
+            else:
+                if sep == "-":
+                    self._digits(interp, q)
+                cur.append(q)
+        parts.append(PStr.make(cur))
+        return parts
+
+    def strip(self, interp):
+        ps = list(self.pieces)
+        if isinstance(ps[0], str):
+            ps[0] = ps[0].lstrip()
+        if isinstance(ps[-1], str):
+            ps[-1] = ps[-1].rstrip()
+        return PStr.make(ps)
 
 
 class GStr:
